@@ -581,6 +581,302 @@ def translate_densematrix(src):
     return solve, invert
 
 
+# ------------------------------------------------------------------------------------------------
+# (round 4) densematrix.hh: the control skeleton of luDecomposition, its functors and its three callers
+# ------------------------------------------------------------------------------------------------
+
+_ID = r"[A-Za-z_]\w*"
+_MIRROR = {"<": ">", ">": "<", "<=": ">=", ">=": "<=", "==": "==", "!=": "!="}
+
+
+def _inc(name):
+    return r"(?:(?P=%s)\+\+|\+\+(?P=%s))" % (name, name)
+
+
+def _lo_offset(e, var, what):
+    """lower bound of a loop relative to the row `var`: var -> 0, var+K / K+var -> K"""
+    if e == var:
+        return 0
+    m = re.fullmatch(r"%s\+(\d+)" % re.escape(var), e) or re.fullmatch(r"(\d+)\+%s" % re.escape(var), e)
+    if m:
+        return int(m.group(1))
+    raise TranslateError("densematrix.hh: luDecomposition: lower bound %r of the %s loop outside the grammar" % (e, what))
+
+
+def _hi_minus(e, full, what):
+    """upper bound: `full` -> 0, `full-K` -> K"""
+    if e == full:
+        return 0
+    m = re.fullmatch(r"%s-(\d+)" % re.escape(full), e)
+    if m:
+        return int(m.group(1))
+    raise TranslateError("densematrix.hh: luDecomposition: upper bound %r of the %s loop outside the grammar" % (e, what))
+
+
+def _body_after(ns, sig_re, what):
+    m = re.search(sig_re, ns)
+    if not m:
+        raise TranslateError("densematrix.hh: %s not found" % what)
+    start = ns.index("{", m.end() - 1)
+    depth, e = 0, start
+    while True:
+        if ns[e] == "{":
+            depth += 1
+        elif ns[e] == "}":
+            depth -= 1
+            if depth == 0:
+                break
+        e += 1
+    return ns[start + 1:e]
+
+
+def translate_lu(src):
+    """densematrix.hh: everything in luDecomposition() / ElimDet / ElimPivot / Elim<V> / the LU branches of determinant(), solve(),
+    invert() where a mask, a mask reduction, a `cond` or a loop bound decides what happens in a lane: the bounds and the comparison of
+    the per-lane pivot search and the operand order of its two `cond`s, the update of nonsingularLanes, the two reductions that
+    throw / return, the bounds of the elimination loops, the `cond` of ElimDet::swap and ElimPivot::swap, the `throwEarly` argument of
+    the three callers and the `cond` that masks singular lanes of the determinant.  The straight-line arithmetic in between has to
+    have the form the hand-written model follows (identifiers may be renamed, `k++`/`++k`, braces around single statements,
+    `a -= f*b` / `a = a - f*b`, commuted factors and the operand order of `swap` are free); anything else fails loudly."""
+    ns = nospace(strip_comments(src))
+    d = {}
+    body = _body_after(ns, r"inlinevoidDenseMatrix<MAT>::luDecomposition\(DenseMatrix<MAT>&A,Funcfunc,Mask&nonsingularLanes,"
+                           r"boolthrowEarly,booldoPivoting\)\{", "definition of luDecomposition")
+    lane_swap_A = (r"swap\((?:Simd::lane\((?P=l),A\[(?P=i)\]\[(?P=j)\]\),Simd::lane\((?P=l),A\[Simd::lane\((?P=l),(?P=im)\)\]\[(?P=j)\]\)"
+                   r"|Simd::lane\((?P=l),A\[Simd::lane\((?P=l),(?P=im)\)\]\[(?P=j)\]\),Simd::lane\((?P=l),A\[(?P=i)\]\[(?P=j)\]\))\);")
+    update = (r"(?:A\[(?P=k2)\]\[(?P=j2)\]-=|A\[(?P=k2)\]\[(?P=j2)\]=A\[(?P=k2)\]\[(?P=j2)\]-)"
+              r"(?:(?P=f)\*A\[(?P=i)\]\[(?P=j2)\]|A\[(?P=i)\]\[(?P=j2)\]\*(?P=f));")
+    rx = (r"(?:usingstd::max;|usingstd::swap;)*"
+          r"(?:typedeftypenameFieldTraits<value_type>::real_typereal_type;|usingreal_type=typenameFieldTraits<value_type>::real_type;)"
+          r"for\(size_type(?P<i>" + _ID + r")=0;(?P=i)<A\.rows\(\);" + _inc("i") + r"\)\{"
+          r"real_type(?P<pm>" + _ID + r")=fvmeta::absreal\(A\[(?P=i)\]\[(?P=i)\]\);"
+          r"if\(doPivoting\)\{"
+          r"simd_index_type(?P<im>" + _ID + r")=(?P=i);"
+          r"for\(size_type(?P<k>" + _ID + r")=(?P<pivlo>[^;]+);(?P=k)<(?P<pivhi>[^;]+);" + _inc("k") + r"\)\{"
+          r"auto(?P<ab>" + _ID + r")=fvmeta::absreal\(A\[(?P=k)\]\[(?P=i)\]\);"
+          r"auto(?P<mk>" + _ID + r")=(?P<cl>" + _ID + r")(?P<cmp><=|>=|==|!=|<|>)(?P<cr>" + _ID + r");"
+          r"(?P=pm)=Simd::cond\((?P=mk),(?P<pt>" + _ID + r"),(?P<pf>" + _ID + r")\);"
+          r"(?P=im)=Simd::cond\((?P=mk),(?P<it>simd_index_type\(" + _ID + r"\)|" + _ID + r"),(?P<if>simd_index_type\(" + _ID + r"\)|" + _ID + r")\);"
+          r"\}"
+          r"for\(size_type(?P<j>" + _ID + r")=(?P<sjlo>[^;]+);(?P=j)<(?P<sjhi>[^;]+);" + _inc("j") + r"\)\{?"
+          r"for\(std::size_t(?P<l>" + _ID + r")=(?P<sllo>[^;]+);(?P=l)<(?P<slhi>[^;]+);" + _inc("l") + r"\)\{?"
+          + lane_swap_A +
+          r"\}?\}?"
+          r"func\.swap\((?P=i),(?P=im)\);"
+          r"\}"
+          r"nonsingularLanes=nonsingularLanes(?P<nsop>&&|\|\|)\((?P=pm)(?P<nscmp><=|>=|==|!=|<|>)real_type\(0\)\);"
+          r"if\(throwEarly\)\{?if\((?P<tn>!?)Simd::(?P<tr>\w+)\(nonsingularLanes\)\)DUNE_THROW\(FMatrixError,\"[^\"]*\"\);\}?"
+          r"else\{?if\((?P<rn>!?)Simd::(?P<rr>\w+)\(nonsingularLanes\)\)return;\}?"
+          r"for\(size_type(?P<k2>" + _ID + r")=(?P<eklo>[^;]+);(?P=k2)<(?P<ekhi>[^;]+);" + _inc("k2") + r"\)\{"
+          r"field_type(?P<f>" + _ID + r")=A\[(?P=k2)\]\[(?P=i)\]/A\[(?P=i)\]\[(?P=i)\];"
+          r"A\[(?P=k2)\]\[(?P=i)\]=(?P=f);"
+          r"for\(size_type(?P<j2>" + _ID + r")=(?P<ejlo>[^;]+);(?P=j2)<(?P<ejhi>[^;]+);" + _inc("j2") + r"\)\{?"
+          + update +
+          r"\}?"
+          r"func\((?P=f),(?P=k2),(?P=i)\);"
+          r"\}\}")
+    m = re.fullmatch(rx, body)
+    if not m:
+        raise TranslateError("densematrix.hh: luDecomposition outside the grammar (statement order, a new statement, another reduction "
+                             "site or another form of the arithmetic)")
+    g = m.groupdict()
+    i_, k_, pm, ab, im = g["i"], g["k"], g["pm"], g["ab"], g["im"]
+    d["pivLo"] = _lo_offset(g["pivlo"], i_, "pivot search")
+    d["pivHiMinus"] = _hi_minus(g["pivhi"], "A.rows()", "pivot search")
+    if {g["cl"], g["cr"]} != {ab, pm}:
+        raise TranslateError("densematrix.hh: luDecomposition: the pivot comparison must compare %s with %s" % (ab, pm))
+    cmp_ = g["cmp"] if g["cl"] == ab else _MIRROR[g["cmp"]]          # normalised to `abs CMP pivmax`
+    d["pivCmp"] = SYMBOL_NAMES[cmp_]
+    for key, val in (("pivmaxT", g["pt"]), ("pivmaxF", g["pf"])):
+        if val not in (ab, pm):
+            raise TranslateError("densematrix.hh: luDecomposition: operand %r of the pivmax cond" % val)
+        d[key + "Abs"] = (val == ab)
+    for key, val in (("imaxT", g["it"]), ("imaxF", g["if"])):
+        if val == "simd_index_type(%s)" % k_:
+            d[key + "K"] = True
+        elif val == im:
+            d[key + "K"] = False
+        else:
+            raise TranslateError("densematrix.hh: luDecomposition: operand %r of the imax cond" % val)
+    # the lane-wise row swap runs over all columns and all lanes
+    if g["sjlo"] != "0":
+        raise TranslateError("densematrix.hh: luDecomposition: the row swap must start at column 0 (is %r)" % g["sjlo"])
+    if g["sjhi"] != "A.rows()":
+        raise TranslateError("densematrix.hh: luDecomposition: the row swap must run over all columns (bound %r)" % g["sjhi"])
+    if g["sllo"] != "0" or g["slhi"] != "Simd::lanes(A[%s][%s])" % (i_, g["j"]):
+        raise TranslateError("densematrix.hh: luDecomposition: the row swap must run over all lanes (%r .. %r)" % (g["sllo"], g["slhi"]))
+    d["nsOp"] = SYMBOL_NAMES[g["nsop"]]
+    d["nsCmp"] = SYMBOL_NAMES[g["nscmp"]]
+    for key, neg, red in (("throw", g["tn"], g["tr"]), ("ret", g["rn"], g["rr"])):
+        if red not in ("anyTrue", "allTrue", "anyFalse", "allFalse"):
+            raise TranslateError("densematrix.hh: luDecomposition: unknown reduction %s" % red)
+        # `anyFalse(m)` is `!allTrue(m)`, `allFalse(m)` is `!anyTrue(m)` (defaults.hh / loop.hh, theorems anyFalse_iff, allFalse_iff):
+        # normalised to the positive reductions so that the equivalent spellings give the same table
+        negated = (neg == "!")
+        if red == "anyFalse":
+            red, negated = "allTrue", not negated
+        elif red == "allFalse":
+            red, negated = "anyTrue", not negated
+        d[key + "Not"] = negated
+        d[key + "Red"] = red
+    d["elimKLo"] = _lo_offset(g["eklo"], i_, "elimination (rows)")
+    d["elimKHiMinus"] = _hi_minus(g["ekhi"], "A.rows()", "elimination (rows)")
+    d["elimJLo"] = _lo_offset(g["ejlo"], i_, "elimination (columns)")
+    d["elimJHiMinus"] = _hi_minus(g["ejhi"], "A.rows()", "elimination (columns)")
+
+    # ElimDet::swap (defined in the class body)
+    m = re.search(r"structElimDet\{ElimDet\(field_type&sign\):sign_\(sign\)\{sign_=1;\}"
+                  r"voidswap\(std::size_t(?P<i>" + _ID + r"),simd_index_type(?P<j>" + _ID + r")\)\{"
+                  r"(?:sign_\*=|sign_=sign_\*)Simd::cond\((?:simd_index_type|Simd::Scalar<simd_index_type>)\((?P=i)\)(?P<cmp>==|!=)(?P=j),"
+                  r"field_type\((?P<t>-?1)\),field_type\((?P<f>-?1)\)\);\}"
+                  r"voidoperator\(\)\(constfield_type&,int,int\)\{\}field_type&sign_;\};", ns)
+    if not m:
+        raise TranslateError("densematrix.hh: ElimDet outside the grammar")
+    # `cond(i != j, a, b)` is `cond(i == j, b, a)`: normalised to `==`
+    t_, f_ = (m.group("t"), m.group("f")) if m.group("cmp") == "==" else (m.group("f"), m.group("t"))
+    d["detCmp"] = "eq"
+    d["detTPos"] = (t_ == "1")
+    d["detFPos"] = (f_ == "1")
+    # ElimPivot
+    if not re.search(r"DenseMatrix<MAT>::ElimPivot::ElimPivot\(std::vector<simd_index_type>&pivot\):pivot_\(pivot\)\{"
+                     r"typedeftypenamestd::vector<size_type>::size_typesize_type;"
+                     r"for\(size_type(?P<i>" + _ID + r")=0;(?P=i)<pivot_\.size\(\);" + _inc("i") + r"\)pivot_\[(?P=i)\]=(?P=i);\}", ns):
+        raise TranslateError("densematrix.hh: ElimPivot constructor outside the grammar")
+    if "structElimPivot{ElimPivot(std::vector<simd_index_type>&pivot);voidswap(std::size_ti,simd_index_typej);template<typenameT>" \
+       "voidoperator()(constT&,int,int){}std::vector<simd_index_type>&pivot_;};" not in ns:
+        raise TranslateError("densematrix.hh: ElimPivot declaration outside the grammar")
+    m = re.search(r"voidDenseMatrix<MAT>::ElimPivot::swap\(std::size_t(?P<i>" + _ID + r"),simd_index_type(?P<j>" + _ID + r")\)\{"
+                  r"pivot_\[(?P=i)\]=Simd::cond\((?:simd_index_type|Simd::Scalar<simd_index_type>)\((?P=i)\)(?P<cmp>==|!=)(?P=j),"
+                  r"(?P<t>pivot_\[(?P=i)\]|(?P=j)),(?P<f>pivot_\[(?P=i)\]|(?P=j))\);\}", ns)
+    if not m:
+        raise TranslateError("densematrix.hh: ElimPivot::swap outside the grammar")
+    t_, f_ = (m.group("t"), m.group("f")) if m.group("cmp") == "==" else (m.group("f"), m.group("t"))
+    d["pvtCmp"] = "eq"
+    d["pvtTOld"] = t_.startswith("pivot_")
+    d["pvtFOld"] = f_.startswith("pivot_")
+    # invert(): the two triangular solves with the identity and the lane-wise un-permutation (no decision is data here; the form
+    # the hand-written model follows is insisted on, identifiers and increments are free)
+    if not re.search(r"luDecomposition\(A,ElimPivot\(pivot\),nonsingularLanes,\w+,doPivoting\);auto&L=A;auto&U=A;\*this=field_type\(0\);"
+                     r"for\(size_type(?P<a>" + _ID + r")=0;(?P=a)<rows\(\);" + _inc("a") + r"\)\{?\(\*this\)\[(?P=a)\]\[(?P=a)\]=1;\}?"
+                     r"for\(size_type(?P<i>" + _ID + r")=0;(?P=i)<rows\(\);" + _inc("i") + r"\)\{?"
+                     r"for\(size_type(?P<j>" + _ID + r")=0;(?P=j)<(?P=i);" + _inc("j") + r"\)\{?"
+                     r"for\(size_type(?P<k>" + _ID + r")=0;(?P=k)<rows\(\);" + _inc("k") + r"\)\{?"
+                     r"\(\*this\)\[(?P=i)\]\[(?P=k)\]-=L\[(?P=i)\]\[(?P=j)\]\*\(\*this\)\[(?P=j)\]\[(?P=k)\];\}?\}?\}?"
+                     r"for\(size_type(?P<i2>" + _ID + r")=rows\(\);(?P=i2)>0;\)\{--(?P=i2);"
+                     r"for\(size_type(?P<k2>" + _ID + r")=0;(?P=k2)<rows\(\);" + _inc("k2") + r"\)\{"
+                     r"for\(size_type(?P<j2>" + _ID + r")=(?P=i2)\+1;(?P=j2)<rows\(\);" + _inc("j2") + r"\)\{?"
+                     r"\(\*this\)\[(?P=i2)\]\[(?P=k2)\]-=U\[(?P=i2)\]\[(?P=j2)\]\*\(\*this\)\[(?P=j2)\]\[(?P=k2)\];\}?"
+                     r"\(\*this\)\[(?P=i2)\]\[(?P=k2)\]/=U\[(?P=i2)\]\[(?P=i2)\];\}\}"
+                     r"for\(size_type(?P<i3>" + _ID + r")=rows\(\);(?P=i3)>0;\)\{--(?P=i3);"
+                     r"for\(std::size_t(?P<l>" + _ID + r")=0;(?P=l)<Simd::lanes\(\(\*this\)\[0\]\[0\]\);" + _inc("l") + r"\)\{"
+                     r"std::size_t(?P<pi>" + _ID + r")=Simd::lane\((?P=l),pivot\[(?P=i3)\]\);"
+                     r"if\((?:(?P=i3)!=(?P=pi)|(?P=pi)!=(?P=i3))\)\{?"
+                     r"for\(size_type(?P<j3>" + _ID + r")=0;(?P=j3)<rows\(\);" + _inc("j3") + r"\)\{?"
+                     r"swap\((?:Simd::lane\((?P=l),\(\*this\)\[(?P=j3)\]\[(?P=pi)\]\),Simd::lane\((?P=l),\(\*this\)\[(?P=j3)\]\[(?P=i3)\]\)"
+                     r"|Simd::lane\((?P=l),\(\*this\)\[(?P=j3)\]\[(?P=i3)\]\),Simd::lane\((?P=l),\(\*this\)\[(?P=j3)\]\[(?P=pi)\]\))\);"
+                     r"\}?\}?\}\}\}\}", ns):
+        raise TranslateError("densematrix.hh: invert(): triangular solves / lane-wise un-permutation after luDecomposition outside the grammar")
+    # solve(): backsolve after the decomposition
+    if not re.search(r"luDecomposition\(A,elim,nonsingularLanes,\w+,doPivoting\);"
+                     r"for\(int(?P<i>" + _ID + r")=rows\(\)-1;(?P=i)>=0;(?:(?P=i)--|--(?P=i))\)\{"
+                     r"for\(size_type(?P<j>" + _ID + r")=(?P=i)\+1;(?P=j)<rows\(\);" + _inc("j") + r"\)\{?"
+                     r"rhs\[(?P=i)\]-=A\[(?P=i)\]\[(?P=j)\]\*x\[(?P=j)\];\}?"
+                     r"x\[(?P=i)\]=rhs\[(?P=i)\]/A\[(?P=i)\]\[(?P=i)\];\}\}\}", ns):
+        raise TranslateError("densematrix.hh: solve(): backsolve after luDecomposition outside the grammar")
+    # Elim<V>: lane-wise swap of the right-hand side, elimination step (no decision: the form is insisted on)
+    a_, b_ = r"Simd::lane\((?P=l),\(\*rhs_\)\[(?P=i)\]\)", r"Simd::lane\((?P=l),\(\*rhs_\)\[Simd::lane\((?P=l),(?P=j)\)\]\)"
+    if not re.search(r"voidDenseMatrix<MAT>::Elim<V>::swap\(std::size_t(?P<i>" + _ID + r"),simd_index_type(?P<j>" + _ID + r")\)\{"
+                     r"usingstd::swap;for\(std::size_t(?P<l>" + _ID + r")=0;(?P=l)<Simd::lanes\((?P=j)\);" + _inc("l") + r"\)\{?"
+                     r"swap\((?:" + a_ + "," + b_ + "|" + b_ + "," + a_ + r")\);\}?\}", ns):
+        raise TranslateError("densematrix.hh: Elim<V>::swap outside the grammar")
+    if not re.search(r"Elim<V>::operator\(\)\(consttypenameV::field_type&(?P<f>" + _ID + r"),int(?P<k>" + _ID + r"),int(?P<i>" + _ID + r")\)\{"
+                     r"(?:\(\*rhs_\)\[(?P=k)\]-=|\(\*rhs_\)\[(?P=k)\]=\(\*rhs_\)\[(?P=k)\]-)"
+                     r"(?:(?P=f)\*\(\*rhs_\)\[(?P=i)\]|\(\*rhs_\)\[(?P=i)\]\*(?P=f));\}", ns):
+        raise TranslateError("densematrix.hh: Elim<V>::operator() outside the grammar")
+    # the three callers: which mode, which functor, how singular lanes are masked
+    calls = re.findall(r"luDecomposition\(A,([^,;]+),nonsingularLanes,(\w+),doPivoting\);", ns)
+    if len(calls) != 3 or ns.count("luDecomposition(") != 5:   # declaration + definition + three calls
+        raise TranslateError("densematrix.hh: expected exactly the three calls of luDecomposition in solve/invert/determinant")
+    by_func = {}
+    for func, te in calls:
+        if te not in ("true", "false"):
+            raise TranslateError("densematrix.hh: throwEarly argument %r" % te)
+        by_func[func] = (te == "true")
+    if set(by_func) != {"elim", "ElimPivot(pivot)", "ElimDet(det)"}:
+        raise TranslateError("densematrix.hh: functors of the luDecomposition calls: %r" % sorted(by_func))
+    d["solveThrowEarly"] = by_func["elim"]
+    d["invertThrowEarly"] = by_func["ElimPivot(pivot)"]
+    d["detThrowEarly"] = by_func["ElimDet(det)"]
+    if len(re.findall(r"Simd::Mask<typenameFieldTraits<value_type>::real_type>nonsingularLanes\(true\);", ns)) != 3:
+        raise TranslateError("densematrix.hh: nonsingularLanes must start as all-true in solve/invert/determinant")
+    m = re.search(r"luDecomposition\(A,ElimDet\(det\),nonsingularLanes,\w+,doPivoting\);"
+                  r"for\(size_type(?P<i>" + _ID + r")=0;(?P=i)<rows\(\);" + _inc("i") + r"\)\{?(?:det\*=A\[(?P=i)\]\[(?P=i)\]|det=det\*A\[(?P=i)\]\[(?P=i)\]);\}?"
+                  r"det=Simd::cond\(nonsingularLanes,(?P<t>det|field_type\(0\)),(?P<f>det|field_type\(0\))\);returndet;\}", ns)
+    if not m:
+        raise TranslateError("densematrix.hh: determinant(): product of the diagonal / masking of singular lanes outside the grammar")
+    d["detMaskTDet"] = (m.group("t") == "det")
+    d["detMaskFDet"] = (m.group("f") == "det")
+    return d
+
+
+KERNEL_NAMES = ("mv", "mtv", "umv", "umtv", "umhv", "mmv", "mmtv", "mmhv", "usmv", "usmtv", "usmhv")
+
+
+def translate_kernels(src):
+    """densematrix.hh: the eleven matrix-vector kernels.  Each must be a plain loop nest over rows() x cols() with ONE update statement
+    `yy[D] +=|-= [alpha *] [conjugateComplex](*this)[P][Q] * xx[E]` (optionally `yy[I] = y_field_type(0)` in front of the inner loop):
+    which loop runs over the rows, which index addresses the result, + or -, scaled or not, conjugated or not is DATA (the model
+    executes it, the lane-wise theorem holds for every such shape).  Any other statement in a kernel -- a test, a mask reduction, an
+    early return, a second update -- is outside the grammar and fails loudly."""
+    ns = nospace(strip_comments(src))
+    res = {}
+    for name in KERNEL_NAMES:
+        sig = r"void%s\((?P<al>consttypenameFieldTraits<Y>::field_type&alpha,)?constX&x,Y&y\)const\{" % name
+        ms = list(re.finditer(sig, ns))
+        if len(ms) != 1:
+            raise TranslateError("densematrix.hh: kernel %s: expected exactly one definition" % name)
+        body = _body_after(ns, sig, "kernel " + name)
+        aexpr = r"(?P<cj>conjugateComplex\()?\(\*this\)\[(?P<p>" + _ID + r")\]\[(?P<q>" + _ID + r")\]\)?"
+        xexpr = r"xx\[(?P<e>" + _ID + r")\]"
+        rx = (r"auto&&xx=Impl::asVector\(x\);auto&&yy=Impl::asVector\(y\);"
+              r"(?:DUNE_ASSERT_BOUNDS\([^;]*\);)*"
+              r"(?:usingy_field_type=typenameFieldTraits<Y>::field_type;)?"
+              r"for\(size_type(?P<i>" + _ID + r")=0;(?P=i)<(?P<ob>rows|cols)\(\);" + _inc("i") + r"\)\{?"
+              r"(?P<init>yy\[(?P=i)\]=y_field_type\(0\);)?"
+              r"for\(size_type(?P<j>" + _ID + r")=0;(?P=j)<(?P<ib>rows|cols)\(\);" + _inc("j") + r"\)\{?"
+              r"(?:yy\[(?P<d>" + _ID + r")\](?P<op>\+=|-=)|yy\[(?P<d2>" + _ID + r")\]=yy\[(?P=d2)\](?P<op2>\+|-))"
+              r"(?:(?P<sc>alpha\*)?" + aexpr + r"\*" + xexpr + r"|xx\[(?P<e2>" + _ID + r")\]\*(?P<cj2>conjugateComplex\()?\(\*this\)\[(?P<p2>" + _ID + r")\]\[(?P<q2>" + _ID + r")\]\)?);"
+              r"\}?\}?")
+        m = re.fullmatch(rx, body)
+        if not m:
+            raise TranslateError("densematrix.hh: kernel %s outside the grammar (a plain loop nest with one update statement)" % name)
+        g = m.groupdict()
+        i_, j_ = g["i"], g["j"]
+        d_ = g["d"] or g["d2"]
+        op = g["op"][0] if g["op"] else g["op2"]
+        p_, q_, e_ = (g["p"], g["q"], g["e"]) if g["p"] else (g["p2"], g["q2"], g["e2"])
+        conj = bool(g["cj"] or g["cj2"])
+        if body.count("conjugateComplex(") != (1 if conj else 0):
+            raise TranslateError("densematrix.hh: kernel %s: conjugateComplex outside the grammar" % name)
+        scaled = bool(g["sc"])
+        if scaled != bool(ms[0].group("al")):
+            raise TranslateError("densematrix.hh: kernel %s: the factor alpha and the parameter alpha do not go together" % name)
+        key = (g["ob"], g["ib"], d_ == i_, (p_, q_) == (i_, j_), e_ == j_)
+        if (p_, q_) not in ((i_, j_), (j_, i_)) or d_ not in (i_, j_) or e_ not in (i_, j_):
+            raise TranslateError("densematrix.hh: kernel %s: index outside the grammar" % name)
+        form = {("rows", "cols", True, True, True): "n", ("rows", "cols", False, True, False): "t",
+                ("cols", "rows", True, False, True): "mtv"}.get(key)
+        if form is None:
+            raise TranslateError("densematrix.hh: kernel %s: loop nest / index pattern %r outside the three known forms" % (name, key))
+        if form == "t" and g["init"]:
+            raise TranslateError("densematrix.hh: kernel %s: initialisation inside a transposed accumulation" % name)
+        wanted_n = name in ("mv", "umv", "mmv", "usmv")
+        if (form == "n") != wanted_n:
+            raise TranslateError("densematrix.hh: kernel %s: result vector has the other dimension" % name)
+        res[name] = dict(form=form, init=bool(g["init"]), sub=(op == "-"), scaled=scaled, conj=conj)
+    return res
+
+
 def translate_spec(md):
     """the operator table of simd/DESIGN.md"""
     text = re.sub(r"\s+", " ", md)
@@ -641,6 +937,8 @@ def translate(repo):
     dflt = translate_defaults(rd("dune/common/simd/defaults.hh"))
     spec = translate_spec(rd("dune/common/simd/DESIGN.md"))
     chk_solve, chk_invert = translate_densematrix(rd("dune/common/densematrix.hh"))
+    lu = translate_lu(rd("dune/common/densematrix.hh"))
+    kernels = translate_kernels(rd("dune/common/densematrix.hh"))
 
     def syms(macro):
         return [a[0] for a in inv["DUNE_SIMD_LOOP_" + macro]]
@@ -775,6 +1073,58 @@ def translate(repo):
         return "[" + ", ".join("(%d, .%s, .%s)" % (n_, d[n_][0], d[n_][1]) for n_ in sorted(d)) + "]"
     g.append("def chkSolve : List (Nat × RedKind × CmpOpName) := %s" % chk_list(chk_solve))
     g.append("def chkInvert : List (Nat × RedKind × CmpOpName) := %s" % chk_list(chk_invert))
+    g.append("")
+    # (round 4) densematrix.hh: control skeleton of luDecomposition, its functors and callers
+    g.append("/-- densematrix.hh, `luDecomposition` and what surrounds it: every place where a mask, a mask reduction, a `cond` or a loop")
+    g.append("    bound decides what happens in a lane.")
+    g.append("    pivot search `for (k = i + pivLo; k < rows - pivHiMinus; k++) { abs = |A[k][i]|; mask = abs pivCmp pivmax;")
+    g.append("    pivmax = cond(mask, pivmaxT, pivmaxF); imax = cond(mask, imaxT, imaxF); }` (`…Abs`: the operand is `abs`, else `pivmax`;")
+    g.append("    `…K`: the operand is `simd_index_type(k)`, else `imax`); `nonsingularLanes = nonsingularLanes nsOp (pivmax nsCmp 0)`;")
+    g.append("    `if (throwEarly) { if ([!]throwRed(nonsingularLanes)) throw } else { if ([!]retRed(nonsingularLanes)) return }`;")
+    g.append("    elimination `for (k = i + elimKLo; k < rows - elimKHiMinus; …) for (j = i + elimJLo; j < rows - elimJHiMinus; …)`;")
+    g.append("    `ElimDet::swap`: `sign *= cond(i detCmp j, ±1, ±1)`; `ElimPivot::swap`: `pivot[i] = cond(i pvtCmp j, T, F)` (`…Old`: the")
+    g.append("    operand is `pivot[i]`, else `j`); the `throwEarly` argument of the calls in solve / invert / determinant;")
+    g.append("    `det = cond(nonsingularLanes, T, F)` (`…Det`: the operand is `det`, else `field_type(0)`) -/")
+    g.append("structure LUCtl where")
+    bools = ("pivmaxTAbs", "pivmaxFAbs", "imaxTK", "imaxFK", "throwNot", "retNot", "detTPos", "detFPos", "pvtTOld", "pvtFOld",
+             "solveThrowEarly", "invertThrowEarly", "detThrowEarly", "detMaskTDet", "detMaskFDet")
+    nats = ("pivLo", "pivHiMinus", "elimKLo", "elimKHiMinus", "elimJLo", "elimJHiMinus")
+    cmps = ("pivCmp", "nsCmp", "detCmp", "pvtCmp")
+    reds_ = ("throwRed", "retRed")
+    for f in nats:
+        g.append("  %s : Nat" % f)
+    for f in cmps:
+        g.append("  %s : CmpOpName" % f)
+    g.append("  nsOp : BoolOpName")
+    for f in reds_:
+        g.append("  %s : RedKind" % f)
+    for f in bools:
+        g.append("  %s : Bool" % f)
+    g.append("  deriving DecidableEq, Repr")
+    fields = (["%s := %d" % (f, lu[f]) for f in nats] + ["%s := .%s" % (f, lu[f]) for f in cmps] + ["nsOp := .%s" % lu["nsOp"]]
+              + ["%s := .%s" % (f, lu[f]) for f in reds_] + ["%s := %s" % (f, "true" if lu[f] else "false") for f in bools])
+    g.append("def luCtl : LUCtl :=\n  { " + ",\n    ".join(", ".join(fields[i:i + 5]) for i in range(0, len(fields), 5)) + " }")
+    g.append("")
+    # (round 4) densematrix.hh: the matrix-vector kernels as data
+    g.append("/-- densematrix.hh: form of a matrix-vector kernel.  `n`: `for i < rows { [y[i] = 0;] for j < cols: y[i] ±= T(A[i][j]) * x[j] }`;")
+    g.append("    `t`: `for i < rows for j < cols: y[j] ±= T(A[i][j]) * x[i]`; `mtv`: `for i < cols { [y[i] = 0;] for j < rows: y[i] ±= T(A[j][i]) * x[j] }`;")
+    g.append("    `T(a)` = `[alpha *] [conjugateComplex](a)` -/")
+    g.append("inductive KForm where")
+    g.append("  | n | t | mtv")
+    g.append("  deriving DecidableEq, Repr")
+    g.append("structure KShape where")
+    g.append("  form : KForm")
+    g.append("  init : Bool")
+    g.append("  sub : Bool")
+    g.append("  scaled : Bool")
+    g.append("  conj : Bool")
+    g.append("  deriving DecidableEq, Repr")
+    tf = lambda b: "true" if b else "false"
+    for name in KERNEL_NAMES:
+        k = kernels[name]
+        g.append("def kernel_%s : KShape := { form := .%s, init := %s, sub := %s, scaled := %s, conj := %s }" % (
+            name, k["form"], tf(k["init"]), tf(k["sub"]), tf(k["scaled"]), tf(k["conj"])))
+    g.append("def kernelTable : List (String × KShape) := [%s]" % ", ".join('("%s", kernel_%s)' % (n_, n_) for n_ in KERNEL_NAMES))
     g.append("")
     # operator lists
     un = syms("UNARY_OP")
